@@ -99,6 +99,9 @@ func genC09(t *rapid.T) CaseC09 {
 		sh := genRootShape(t, false)
 		c.Map = instantiate(t, sh).(map[string]interface{})
 		decorate(t, c.Map, c.Prefix)
+		if rapid.IntRange(0, 7).Draw(t, "wrapdeep") == 0 {
+			c.Map, _ = wrapDeep(t, c.Map, nil)
+		}
 	}
 	if rapid.IntRange(0, 5).Draw(t, "alias") == 0 {
 		c.Alias = &AliasSpec{Src: rapid.IntRange(0, 30).Draw(t, "asrc"), Dst: rapid.IntRange(0, 30).Draw(t, "adst"), Key: rapid.SampledFrom(shapeKeys).Draw(t, "akey")}
@@ -257,6 +260,8 @@ func checkC09(c CaseC09, info *Info) *Failure {
 	// (5) wrappers
 	if !c.Exotic && c.Prefix == "-" && !c.Dot && !c.NoAttr {
 		if jb, err := mv.Json(); err == nil {
+			// the caller's buffer held another document of the same length a moment ago (and the wrappers saw it)
+			jb = reuseBuffer(jb, false, func(b []byte) { j2x.JsonLeafNodes(b); j2x.JsonLeafPath(b); j2x.JsonLeafValues(b) })
 			jl, jerr := j2x.JsonLeafNodes(jb)
 			jp, jv := make([]string, len(jl)), make([]interface{}, len(jl))
 			for i, l := range jl {
@@ -264,6 +269,14 @@ func checkC09(c CaseC09, info *Info) *Failure {
 			}
 			if jerr != nil || !reflect.DeepEqual(leafStrings(jp, jv, true), g) {
 				return failf("wrapper-mismatch", "j2x.JsonLeafNodes(%s) = %v,%v want %v", jb, leafStrings(jp, jv, true), jerr, g)
+			}
+			jlp, jlperr := j2x.JsonLeafPath(jb)
+			jlv, jlverr := j2x.JsonLeafValues(jb)
+			wjp := append([]string(nil), jp...)
+			sort.Strings(jlp)
+			sort.Strings(wjp)
+			if jlperr != nil || jlverr != nil || len(jlp) != len(wjp) || (len(jlp) > 0 && !reflect.DeepEqual(jlp, wjp)) || !sameMultisetStrict(jlv, jv) {
+				return failf("wrapper-mismatch", "j2x.JsonLeafPath / JsonLeafValues(%s) = %v / %v (%v %v); JsonLeafNodes gives %v / %v", jb, jlp, jlv, jlperr, jlverr, wjp, jv)
 			}
 		}
 		if !hasEmptyKeyOrOdd(c.Map) && !hasKeyNamed(c.Map, "#text") {
@@ -274,6 +287,7 @@ func checkC09(c CaseC09, info *Info) *Failure {
 				x2j.XmlLeafPath(xb)
 				mxj.SetAttrPrefix(c.Prefix)
 				if m2, derr := mxj.NewMapXml(xb); derr == nil {
+					xb = reuseBuffer(xb, true, func(b []byte) { x2j.XmlLeafNodes(b); x2j.XmlLeafPath(b); x2j.XmlLeafValues(b) })
 					xl, xerr := x2j.XmlLeafNodes(xb)
 					cl := m2.LeafNodes()
 					xp, xv := make([]string, len(xl)), make([]interface{}, len(xl))
